@@ -212,6 +212,15 @@ def gen_pattern(rng):
         d = rng.choice([{}, {"pathname": "*"}, {"protocol": "*", "hostname": "*", "pathname": "*"}, {"pathname": "(.*)"},
                         {"search": "*", "hash": "*"}, {"hostname": "*", "port": "*"}])
         return "i", enc_init(d), "!", ic, d
+    if rng.random() < 0.1:
+        # a literal (or grouped) scheme decides how the pathname is compiled: hierarchical for special schemes (file included),
+        # opaque otherwise; the pathname has groups / dot segments so that the two compilations behave differently
+        pr = rng.choice(["file", "file", "http", "ftp", "wss", "foo", "(file)", "(http|file)", "fil{e}", ":p", "FILE"])
+        pa = rng.choice(["/:dir/:name", "/:a", "/a/*", "/*/c", "/a/../b", "/./x/:y", "/:a/:b?", "/a/:rest*", "/{:x/}?z", "*"])
+        d = {"protocol": pr, "pathname": pa}
+        if rng.random() < 0.3:
+            d["hostname"] = rng.choice(["*", "h", ""])
+        return "i", enc_init(d), "!", ic, d
     if rng.random() < 0.65:
         comps = rng.sample(KEYS, rng.choice([1, 1, 2, 3]))
         d = {c: gen_component_pattern(rng, c) for c in comps}
@@ -239,6 +248,11 @@ def gen_input(rng):
         if k == 2:
             return "i", enc_init(rng.choice([{"port": "99999"}, {"baseURL": "not a base"}, {"protocol": "a b"}, {"hostname": "a b"}])), "!"
         return "i", enc_init(rng.choice([{"pathname": "/foo"}, {}])), hx(b"https://example.com/")
+    if rng.random() < 0.12:
+        # hierarchical paths of several segments under every kind of scheme
+        u = rng.choice(["file://", "file://h", "http://h", "ftp://h", "wss://h", "foo://h", "foo:"]) + \
+            rng.choice(["/a", "/a/b", "/a/b/c", "/b", "/x/y", "/z", "/a/c", "/a/b/c/d", "/"])
+        return "s", hx(u.encode()), "!"
     if rng.random() < 0.7:
         u = rng.choice(["https", "http", "ws", "foo"]) + "://" + rng.choice(["", "user@", "u:p@"]) + \
             rng.choice(["example.com", "a-b.example", "EXAMPLE.com", "xn--a.b", "日本.jp", "[::1]", "127.0.0.1"]) + \
